@@ -4,6 +4,7 @@ EXTENDS Aggregator, AggAlphabet
 \* arguments, and one literally named generic_command)
 Cmds == <<
   C("function", <<"@", "a">>),
+  C("function", <<"dup", "a">>),          \* a name that can occur twice (e.g. one definition per if/else branch)
   C("macro", <<"@">>),
   C("endfunction", <<>>), C("endmacro", <<>>),
   C("set", <<"@", "v">>),
